@@ -44,11 +44,12 @@ theorem safe_components {s : Sys} {e : Event} (h : safeStep s e = true) :
     (∀ x, (sysStep s e).2 ≠ Outcome.internal x) ∧
     (sysStep s e).1.mon.closedCount ≤ 1 ∧ (sysStep s e).1.mon.afterClosed = false ∧
     (sysStep s e).1.mon.dup = false ∧ (sysStep s e).1.mon.order = false ∧
-    (sysStep s e).1.mon.verdictBad = false ∧ (sysStep s e).1.mon.resourceBad = false := by
+    (sysStep s e).1.mon.verdictBad = false ∧ (sysStep s e).1.mon.resourceBad = false ∧
+    (sysStep s e).1.mon.verdictWrong = false := by
   unfold safeStep at h
   simp only [Bool.and_eq_true, decide_eq_true_eq, Bool.not_eq_true'] at h
-  obtain ⟨⟨⟨⟨⟨⟨h1, h2⟩, h3⟩, h4⟩, h5⟩, h6⟩, h7⟩ := h
-  refine ⟨?_, h2, h3, h4, h5, h6, h7⟩
+  obtain ⟨⟨⟨⟨⟨⟨⟨h1, h2⟩, h3⟩, h4⟩, h5⟩, h6⟩, h8⟩, h7⟩ := h
+  refine ⟨?_, h2, h3, h4, h5, h6, h7, h8⟩
   intro x hx
   rw [hx] at h1
   simp at h1
